@@ -35,20 +35,38 @@ pub(crate) fn parse_defchordv2(
                 t: ref exprs,
                 span: _,
             }) if matches!(exprs.first(), Some(SExpr::Atom(a)) if a.t == "include") => {
-                let file_name = exprs[1].atom(s.vars()).unwrap();
-                let chord_translation = ChordTranslation::create(
-                    file_name,
-                    &chunk[2],
-                    &chunk[3],
-                    &chunk[4],
-                    &s.layers[0][0],
-                );
-                let chord_definitions = parse_chord_file(file_name).unwrap();
-                let processed = chord_definitions.iter().map(|chord_def| {
-                    let chunk = chord_translation.translate_chord(chord_def);
-                    parse_single_chord(&chunk, s, &mut all_participating_key_sets)
-                });
-                Ok::<_, ParseError>(processed.collect_vec())
+                // Problems with the included file are configuration errors, not panics.
+                let mut include = || -> Result<Vec<Result<_>>> {
+                    let file_name = exprs
+                        .get(1)
+                        .and_then(|e| e.atom(s.vars()))
+                        .ok_or_else(|| anyhow_expr!(&chunk[0], "include expects a file name"))?;
+                    let chord_translation = ChordTranslation::create(
+                        file_name,
+                        &chunk[2],
+                        &chunk[3],
+                        &chunk[4],
+                        &s.layers[0][0],
+                    );
+                    let chord_definitions = parse_chord_file(file_name)
+                        .map_err(|e| anyhow_expr!(&chunk[0], "{}", e.msg))?;
+                    let mut processed = vec![];
+                    for chord_def in chord_definitions.iter() {
+                        let chunk = chord_translation
+                            .translate_chord(chord_def)
+                            .map_err(|e| anyhow_expr!(&chunk[0], "{}", e.msg))?;
+                        processed.push(parse_single_chord(
+                            &chunk,
+                            s,
+                            &mut all_participating_key_sets,
+                        ));
+                    }
+                    Ok(processed)
+                };
+                Ok::<_, ParseError>(match include() {
+                    Ok(processed) => processed,
+                    Err(e) => vec![Err(e)],
+                })
             }
             _ => Ok(vec![parse_single_chord(
                 chunk,
@@ -191,10 +209,10 @@ fn parse_disabled_layers(disabled_layers: &SExpr, s: &ParserState) -> Result<Vec
 }
 
 fn parse_chord_file(file_name: &str) -> Result<Vec<ChordDefinition>> {
-    let input_data = fs::read_to_string(file_name)
-        .unwrap_or_else(|_| panic!("Unable to read file {}", file_name));
-    let parsed_chords = parse_input(&input_data).unwrap();
-    Ok(parsed_chords)
+    let input_data = fs::read_to_string(file_name).map_err(|e| {
+        ParseError::new_without_span(format!("Unable to read file {file_name}: {e}"))
+    })?;
+    parse_input(&input_data)
 }
 
 fn parse_input(input: &str) -> Result<Vec<ChordDefinition>> {
@@ -207,8 +225,12 @@ fn parse_input(input: &str) -> Result<Vec<ChordDefinition>> {
                 "Each line needs to have an action separated by a tab character, got '{}'",
                 line
             );
-            let keys = caps.next().expect(&error_message);
-            let action = caps.next().expect(&error_message);
+            let keys = caps
+                .next()
+                .ok_or_else(|| ParseError::new_without_span(&error_message))?;
+            let action = caps
+                .next()
+                .ok_or_else(|| ParseError::new_without_span(&error_message))?;
             Ok(ChordDefinition {
                 keys: keys.to_string(),
                 action: action.to_string(),
@@ -322,13 +344,26 @@ impl<'a> ChordTranslation<'a> {
         action_strings
     }
 
-    fn translate_chord(&self, chord_def: &ChordDefinition) -> Vec<SExpr> {
+    fn translate_chord(&self, chord_def: &ChordDefinition) -> Result<Vec<SExpr>> {
+        if chord_def.action.is_empty() {
+            return Err(ParseError::new_without_span(format!(
+                "Chord '{}' in {} has an empty action",
+                chord_def.keys, self.file_name
+            )));
+        }
         let sexpr_string = format!(
             "(({}) (macro {}))",
             self.participant_keys(&chord_def.keys).join(" "),
             self.action(&chord_def.action).join(" ")
         );
-        let mut participant_action = sexpr::parse(&sexpr_string, self.file_name).unwrap()[0]
+        let mut participant_action = sexpr::parse(&sexpr_string, self.file_name)?
+            .first()
+            .ok_or_else(|| {
+                ParseError::new_without_span(format!(
+                    "Could not translate chord '{}' in {}",
+                    chord_def.keys, self.file_name
+                ))
+            })?
             .t
             .clone();
         participant_action.extend_from_slice(&[
@@ -336,6 +371,6 @@ impl<'a> ChordTranslation<'a> {
             self.release_behaviour.clone(),
             self.disabled_layers.clone(),
         ]);
-        participant_action
+        Ok(participant_action)
     }
 }
